@@ -367,6 +367,26 @@ def _terminates(stmts):
   return False
 
 
+_NEG_OPS = {ast.NotEq: ast.Eq, ast.IsNot: ast.Is, ast.NotIn: ast.In,
+            ast.GtE: ast.Lt, ast.LtE: ast.Gt}
+
+
+def canon_guard(test, pol):
+  """(text, polarity) of a guard with the comparison operator in its positive
+  form: (`x is not None`, True) and (`x is None`, False) are the same atom,
+  written ('x is None', False)."""
+  import copy
+  from .model import norm_text
+  while isinstance(test, ast.UnaryOp) and isinstance(test.op, ast.Not):
+    test, pol = test.operand, not pol
+  if isinstance(test, ast.Compare) and len(test.ops) == 1 and type(
+      test.ops[0]) in _NEG_OPS:
+    test = copy.copy(test)
+    test.ops = [_NEG_OPS[type(test.ops[0])]()]
+    pol = not pol
+  return norm_text(test), pol
+
+
 def structural_guards(fn_node, target):
   """Conditions known to hold when `target` (a stmt or expr node inside
   fn_node) executes, as [(test_expr, polarity)].  Includes enclosing
